@@ -66,6 +66,7 @@ type callSpec struct {
 }
 
 type histIn struct {
+	Warm    bool       `json:"warm"` // after the basic world, run the legitimate traffic of warm() before the calls
 	Audit   bool       `json:"audit"`
 	Zero    bool       `json:"zero"` // service_mgr proposals use the ZeroPermission strategy
 	Surface bool       `json:"surface"`
@@ -194,6 +195,7 @@ func buildWorld(in *histIn) (w *world, err error) {
 	}
 	am := constant.AppchainMgrContractAddr.Address()
 	sm := constant.ServiceMgrContractAddr.Address()
+	c.Ledger.SetCode(types.NewAddressByStr(warmCodeAddr), []byte{0x60, 0x00, 0x60, 0x00})
 	for _, ch := range []struct{ id, adm, svc string }{{"chainA", "$ADMA", "svcA"}, {"chainB", "$ADMB", "svcB"}} {
 		ret := w.must("RegisterAppchain "+ch.id, w.exec(ch.adm, am, "RegisterAppchain",
 			pb.String(ch.id), pb.String("name-"+ch.id), pb.Bytes([]byte("pubkey")), pb.String("ETH"), pb.Bytes([]byte("trustroot")),
@@ -235,8 +237,81 @@ func buildWorld(in *histIn) (w *world, err error) {
 	for addr, con := range c.Exec.GetBoltContracts() {
 		w.typeOf[reflect.TypeOf(con).Elem().Name()] = addr
 	}
+	if in.Warm && !in.Zero {
+		w.warm()
+	}
 	return w, nil
 }
+
+func (w *world) ibtp(ib *pb.IBTP, what string) {
+	proof := []byte("proof-" + what)
+	ph := sha256.Sum256(proof)
+	ib.Proof = ph[:]
+	tx := hx.IBTPTx(w.keys["$OUT"], w.next("$OUT"), ib, proof)
+	if ev := w.c.ExecBlock([]pb.Transaction{tx}, true, 20*time.Second); ev == nil {
+		panic(what + ": block not executed")
+	}
+	if r, err := w.c.Ledger.GetReceipt(tx.GetHash()); err != nil || r.Status != pb.Receipt_SUCCESS {
+		panic(fmt.Sprintf("%s rejected: %v %s", what, err, string(r.GetRet())))
+	}
+}
+
+// warm runs, once, legitimate traffic through every contract-to-contract path of the registered
+// (process-wide) contract objects, so that the probes that follow meet the objects in the state a
+// long-running node has them in - whatever a contract keeps in its own fields between invocations
+// (nothing should decide a permission from there) is set by now:
+//   - receipt of the accepted request (TransactionManager.Report, ServiceManager.RecordInvokeService),
+//     a one-to-many request and its receipt (BeginMultiTXs, Report on a global transaction);
+//   - governance flows register -> vote -> Manage for a role and a dapp (appchain, service, node were
+//     done by the basic world), with UpdateAppchainAdmin / OccupyAccount / RegisterRuleFirst /
+//     Interchain.Register / UpdateProposalStrategyByRolesChange on the way;
+//   - on a third appchain chainC (Fabric type: three default rules) with service svcC: a pending service
+//     proposal locked by the appchain's freeze (PauseChainService, LockLowPriorityProposal), restored by its
+//     activation (UnPauseChainService, UnLockLowPriorityProposal, Manage with the restored event), a
+//     master-rule update (PauseAppchain, UnPauseAppchain, RuleManager.Manage) and finally the appchain's
+//     logout (ClearChainService, ClearRule, EndObjProposal).
+// The objects the probes aim at (chainA, chainB, their services, $P0, the node) are left as they were.
+func (w *world) warm() {
+	bxh := strconv.FormatUint(w.c.Opts.ChainID, 10)
+	fa, fb := bxh+":chainA:svcA", bxh+":chainB:svcB"
+	am := constant.AppchainMgrContractAddr.Address()
+	sm := constant.ServiceMgrContractAddr.Address()
+	w.ibtp(&pb.IBTP{From: fa, To: fb, Index: 1, Type: pb.IBTP_RECEIPT_SUCCESS, TimeoutHeight: 1000}, "receipt-1")
+	grp := &pb.StringUint64Map{Keys: []string{fb}, Vals: []uint64{2}}
+	w.ibtp(&pb.IBTP{From: fa, To: fb, Index: 2, Type: pb.IBTP_INTERCHAIN, TimeoutHeight: 1000, Group: grp}, "request-2-group")
+	w.ibtp(&pb.IBTP{From: fa, To: fb, Index: 2, Type: pb.IBTP_RECEIPT_SUCCESS, TimeoutHeight: 1000, Group: grp}, "receipt-2-group")
+	// role and dapp
+	w.keys["$WARMROLE"] = hx.Key(50)
+	w.keys["$ADMC"] = hx.Key(51)
+	for _, n := range []string{"$WARMROLE", "$ADMC"} {
+		w.names[strings.ToLower(strings.TrimPrefix(w.addr(n), "0x"))] = n
+	}
+	ret := w.must("RegisterRole", w.exec("$GOV0", constant.RoleContractAddr.Address(), "RegisterRole", pb.String(w.addr("$WARMROLE")), pb.String("governanceAdmin"), pb.String(""), pb.String("r")))
+	w.decide(proposalOf(ret), false) // rejected: the electorate of the probes' world stays the two genesis admins
+	ret = w.must("RegisterDapp", w.exec("$ADMC", constant.DappMgrContractAddr.Address(), "RegisterDapp", pb.String("dappW"), pb.String("tool"), pb.String("d"), pb.String("http://d"),
+		pb.String(warmCodeAddr), pb.String(""), pb.String("r")))
+	w.decide(proposalOf(ret), true)
+	// chainC with svcC
+	broker := `{"channel_id":"ch","chaincode_id":"cc","broker_version":"1"}`
+	ret = w.must("RegisterAppchain chainC", w.exec("$ADMC", am, "RegisterAppchain", pb.String("chainC"), pb.String("name-chainC"), pb.Bytes([]byte("pk")), pb.String("Fabric V1.4.3"),
+		pb.Bytes([]byte("t")), pb.String(broker), pb.String("d"), pb.String(validator.HappyRuleAddr), pb.String(""), pb.String(w.addr("$ADMC")), pb.String("r")))
+	w.decide(proposalOf(ret), true)
+	ret = w.must("RegisterService svcC", w.exec("$ADMC", sm, "RegisterService", pb.String("chainC"), pb.String("svcC"), pb.String("name-svcC"), pb.String("CallContract"), pb.String("i"),
+		pb.Uint64(1), pb.String(""), pb.String("d"), pb.String("r")))
+	w.decide(proposalOf(ret), true)
+	pSvc := proposalOf(w.must("FreezeService svcC", w.exec("$GOV0", sm, "FreezeService", pb.String("chainC:svcC"), pb.String("r"))))
+	ret = w.must("FreezeAppchain chainC", w.exec("$GOV0", am, "FreezeAppchain", pb.String("chainC"), pb.String("r")))
+	w.decide(proposalOf(ret), true)
+	ret = w.must("ActivateAppchain chainC", w.exec("$ADMC", am, "ActivateAppchain", pb.String("chainC"), pb.String("r")))
+	w.decide(proposalOf(ret), true)
+	w.decide(pSvc, false)
+	ret = w.must("UpdateMasterRule chainC", w.exec("$ADMC", constant.RuleManagerContractAddr.Address(), "UpdateMasterRule", pb.String("chainC"), pb.String(validator.FabricRuleAddr), pb.String("r")))
+	w.decide(proposalOf(ret), true)
+	ret = w.must("LogoutAppchain chainC", w.exec("$ADMC", am, "LogoutAppchain", pb.String("chainC"), pb.String("r")))
+	w.decide(proposalOf(ret), true)
+}
+
+const warmCodeAddr = "0x00000000000000000000000000000000000d0001"
 
 // ----------------------------------------------------------------------------------------
 // arguments
